@@ -180,6 +180,13 @@ var c09Sig = []struct{ def, call string }{
 	{"(defn f [#a n] n) (f 1 2) || (defn f [a n] (cond (<= n 0) a @(f (+ a 1) (- n 1))@))", "(f 0 N)"},
 	{"(defn f [a n] n) (f 1 2) || (defn f [#a n] (cond (<= n 0) 0 @(f (tr 5 n) (- n 1))@))", "(f (tr 6 1) N)"},
 	{"(defn f [n & r] (len r)) (f 1 2) || (defn f [n] (cond (<= n 0) 0 @(f (- n 1))@))", "(f N)"},
+	// the old function is still reachable through an alias after its name was bound to something else: its
+	// self call is a call of the NAME, as it is without the optimisation
+	{"(defn f [n] (cond (<= n 0) 0 @(f (- n 1))@)) (def g f) || (defn f [n] (+ 990 n))", "(g N)"},
+	{"(defn f [n a] (tr 1 n) (cond (<= n 0) a @(f (- n 1) (+ a 1))@)) (def g f) || (defn f [n a] (tr 2 n) (list n a))", "(g N 0)"},
+	{"(defn f [n] (cond (<= n 0) 0 @(f (- n 1))@)) (def g f) || (def f 5)", "(g N)"},
+	{"(defn f [n] (cond (<= n 0) 0 @(f (- n 1))@)) (def g f) || (defn f [n] (cond (<= n 0) 1000 @(f (- n 1))@))", "(list (g N) (f N))"},
+	{"(defn f [n] (cond (<= n 0) 0 @(f (- n 1))@)) (def g f) (def hh (hash k: f))", "(list (g N) ((hget hh k:) N) (apply f [N]) (map f [N 1]))"},
 }
 
 // c09EvalParts evaluates the parts of a text separated by "||" one after the other on the same
